@@ -261,6 +261,7 @@ type genOpts struct {
 	CheckDeliver bool // run every transaction in check mode on the in-flight state right before delivering it (C06)
 	NetworkUpdate bool // all validators vote a network version that is adopted a few blocks into the history (needs spec.Versions without it)
 	FailFrame    bool // C03: a rejected transaction changes nothing but one account's balance (the fee payer's)
+	ReplayKey    string // key prefix of the replay monitors (c26 / c04)
 	Replay       bool // C26: accepted transactions are delivered again (same block and later blocks): never accepted twice
 	FeeRoute     bool // C27: a commission paid in a coin with a reserve AND a pool takes the cheaper route
 	CandAuth     bool // C05: candidate settings change only by the owner (on/off also by the control address)
@@ -446,6 +447,17 @@ func genHistory(seed uint64, spec *GenesisSpec, g *genOpts) (*History, *HistResu
 				if tr.Tags["tx.commission_amount"] != want.String() || tr.Tags["tx.commission_conversion"] != route {
 					res.C27 = append(res.C27, MonitorFailure{What: fmt.Sprintf("C27: %s transaction at height %d pays %s base coin in coin %d, which has a reserve (cost %s) and a pool (cost %s): charged %s by route %q, the cheaper route is %q with %s raw=%x",
 						gens[i].Kind, n.Height+1, base, gens[i].Gas, resQ, poolQ, tr.Tags["tx.commission_amount"], tr.Tags["tx.commission_conversion"], route, want, raw), Key: "c27-route-not-cheaper"})
+				}
+			}
+		}
+		if g.Replay {
+			// an accepted transaction leaves its sender's nonce at the transaction's nonce (so the next one, and only it, is in order)
+			opts.PostTx = func(i int, raw []byte, tr TxResult) {
+				if tr.Code != 0 || i >= len(gens) || gens[i] == nil || strings.HasPrefix(gens[i].Kind, "replay-") || gens[i].Kind == "voteupdate-all" {
+					return
+				}
+				if got := n.App.VerifStateDeliver().Accounts.GetNonce(gens[i].Sender.Addr); got != gens[i].Nonce {
+					res.C26 = append(res.C26, MonitorFailure{What: fmt.Sprintf("C04: accepted %s transaction with nonce %d at height %d left the sender's nonce at %d raw=%x", gens[i].Kind, gens[i].Nonce, n.Height+1, got, raw), Key: g.ReplayKey + "-nonce-not-advanced"})
 				}
 			}
 		}
@@ -690,7 +702,7 @@ func genHistory(seed uint64, spec *GenesisSpec, g *genOpts) (*History, *HistResu
 					res.C26Replays++
 					fc, seenHere := firstCode[key]
 					if tr.Code == 0 && (!seenHere || fc == 0) {
-						res.C26 = append(res.C26, MonitorFailure{What: fmt.Sprintf("C26: the signed bytes of an accepted %s transaction were accepted (code 0) again at height %d raw=%x", gens[i].Kind, n.Height, gens[i].Raw), Key: "c26-replay-accepted"})
+						res.C26 = append(res.C26, MonitorFailure{What: fmt.Sprintf("C26: the signed bytes of an accepted %s transaction were accepted (code 0) again at height %d raw=%x", gens[i].Kind, n.Height, gens[i].Raw), Key: g.ReplayKey + "-replay-accepted"})
 					}
 					continue
 				}
